@@ -338,7 +338,7 @@ PROPS["C08"] = dict(
                "rerun_changes_nothing) cover arbitrary interleavings of writes with pages; without the token reset a failed full sync diverges (full_sync_abort_without_reset_diverges, defect D28, "
                "fixed). The order sink-call / error-check / token-store, the reset after startFullSync, the single endFullSync after the read loop and the union source's Update-before-callback and "
                "return-on-error are regenerated facts (facts_*). PARTIAL: union sources and latest-only reads are in the executable model and the correspondence but not in the Hub.Pipe theorems; a "
-               "full sync over a multi-version history is not a no-op for the sink's feed (known finding D29).",
+               "full sync over a multi-version history is not a no-op for the sink's feed (known finding D29). Latest-only dataset sources (Hub/Proofs/PipeLO.lean): a latest-only page is characterised exactly (readPage_lo: the versions, among the positions looked at, that are the newest of their id in the feed; token = position after the last key looked at); the weaker invariant (below the token an id is up to date in the sink or has a newer occurrence at or above the token) is kept by every page, every source write and every fault of an incremental run, and an empty page means convergence (pipe_lo_page, pipe_lo_token_safe, pipe_lo_converges, every history).",
     level_note="Trusted: Lean kernel, factgen, badger. Hub.Pipe is compared with the real pipelines, sources and sink on generated scripts with faults; union/latest-only jobs are covered by that "
                "correspondence and by the abstract Hub.Sync theorems only.",
 )
